@@ -4,15 +4,16 @@
 (* One state per descriptor (printed by the invariant Emit).                                    *)
 EXTENDS Integers, Sequences, TLC, Json
 
-CONSTANTS Bs, Sizes, Ranks, StatBs, Seeds, Reps
+CONSTANTS Bs, Sizes, Ranks, StatBs, Seeds, Reps, CbkVariants
 
 GlweLike == {"glwe", "glwe_c", "lwe"}
-KeyLike == {"ksk", "atk", "tsk", "ggsw", "ggsw_c", "gglwe_c"}
-Stat == {"glwe", "glwe_c", "lwe", "ksk", "ggsw", "ggsw_c", "gglwe_c", "pk_diff"}
+KeyLike == {"ksk", "atk", "tsk", "tgk", "ggsw", "ggsw_c", "gglwe_c"}
+Stat == {"glwe", "glwe_c", "lwe", "ksk", "atk", "tsk", "tgk", "ggsw", "ggsw_c", "gglwe_c", "pk_diff"}
 Base(kind, layout, b, size, rank) == [kind |-> kind, layout |-> layout, n |-> 8, b |-> b, size |-> size, rank |-> rank, sigma10 |-> 32, bound10 |-> 192]
 With(s, f) == [x \in DOMAIN s \cup DOMAIN f |-> IF x \in DOMAIN f THEN f[x] ELSE s[x]]
 \* coefficients per object, to size the number of repetitions (>= 2^14 coefficients per layout)
-Coefs(layout, rank, rin, dnum) == CASE layout = "lwe" -> 1 [] layout \in {"glwe", "glwe_c"} -> 8 [] layout = "pk_diff" -> 8 * (rank + 1) [] layout = "ksk" -> 8 * dnum * rank
+Coefs(layout, rank, rin, dnum) == CASE layout = "lwe" -> 1 [] layout \in {"glwe", "glwe_c"} -> 8 [] layout = "pk_diff" -> 8 * (rank + 1) [] layout \in {"ksk", "atk"} -> 8 * dnum * rank
+                                   [] layout = "tsk" -> 8 * dnum * ((rank * (rank + 1)) \div 2) [] layout = "tgk" -> 8 * dnum * rank * rank
                                    [] layout = "gglwe_c" -> 8 * dnum * rin [] OTHER -> 8 * dnum * (rank + 1)
 RepsFor(layout, rank, rin, dnum) == (Reps + Coefs(layout, rank, rin, dnum) - 1) \div Coefs(layout, rank, rin, dnum)
 
@@ -31,10 +32,19 @@ Next == /\ c.kind = "none"
                     ri == IF l = "gglwe_c" THEN 2 ELSE 1
                 IN /\ (l = "lwe" => r = 1)
                    /\ c' = With(Base("stat", l, b, s, r), [dnum |-> dn, dsize |-> 1, rin |-> ri, nlwe |-> 6, koff |-> 0, be |-> be, reps |-> RepsFor(l, r, ri, dn)])
-           \/ \E l \in {"glwe_c", "gglwe_c", "ggsw_c"}, b \in Bs, s \in Sizes, r \in Ranks, dn \in 1..3, ds \in 1..2, ri \in 1..3, xa \in Seeds, xe \in Seeds, ko \in {0, 1} :
-                /\ s * b <= 24 /\ (l # "glwe_c" => (s > ds /\ dn * ds <= s /\ ko = 0)) /\ (l = "glwe_c" => (dn = 1 /\ ds = 1))
+           \* key bundles: the circuit-bootstrapping key built by its bundle routine, with a different radix / precision (hence noise
+           \* level) for each sub-key; one experiment per (sub-key, back-end, shape variant); 3 Galois elements at N = 8, 4 LWE coefficients
+           \/ \E part \in {"brk", "atk", "tsk"}, be \in 0..3, v \in CbkVariants :
+                LET shapes == IF v = 1 THEN [brk |-> <<3, 4, 2, 1>>, atk |-> <<4, 4, 2, 1>>, tsk |-> <<3, 5, 2, 1>>]
+                                       ELSE [brk |-> <<4, 3, 3, 1>>, atk |-> <<3, 5, 2, 2>>, tsk |-> <<4, 4, 2, 2>>]
+                    coefs == CASE part = "brk" -> 4 * 8 * shapes.brk[3] * 3 [] part = "atk" -> 3 * 8 * shapes.atk[3] * 2 [] OTHER -> 8 * shapes.tsk[3] * 4
+                IN c' = With(Base("stat", "cbk", shapes[part][1], shapes[part][2], 2), [part |-> part, variant |-> v, be |-> be, nlwe |-> 4, brk |-> shapes.brk, atk |-> shapes.atk,
+                                                                                         tsk |-> shapes.tsk, reps |-> (Reps + coefs - 1) \div coefs])
+           \/ \E l \in {"glwe_c", "gglwe_c", "ggsw_c"}, b \in Bs, s \in Sizes, r \in Ranks, dn \in 1..3, ds \in 1..2, ri \in 1..3, xa \in Seeds, xe \in Seeds, ko \in {0, 1}, sm \in {0, 1} :
+                /\ s * b <= 24 /\ (l # "glwe_c" => (s > ds /\ dn * ds <= s /\ ko = 0)) /\ (l = "glwe_c" => (dn = 1 /\ ds = 1 /\ sm = 0))
                 /\ (l # "gglwe_c" => ri = 1)
-                /\ c' = With(Base("c19", l, b, s, r), [dnum |-> dn, dsize |-> ds, rin |-> ri, xa |-> xa, xe |-> xe, koff |-> ko])
+                \* scalar plaintexts: ternary, or coefficients spanning more than one digit (they spill into the limbs above their own)
+                /\ c' = With(Base("c19", l, b, s, r), [dnum |-> dn, dsize |-> ds, rin |-> ri, xa |-> xa, xe |-> xe, koff |-> ko, smag |-> IF sm = 0 THEN 1 ELSE 2 ^ (b + 1) + 1])
            \* compressed key wrappers (switching, automorphism, tensor, GGLWE-to-GGSW): ranks up to 3 (the packed triangle of s_i s_j)
            \/ \E l \in {"ksk_c", "atk_c", "tsk_c", "tgk_c"}, b \in Bs, s \in Sizes, r \in 1..3, dn \in 1..3, ds \in 1..2, xa \in Seeds, xe \in Seeds, pid \in 0..3 :
                 /\ s * b <= 24 /\ s > ds /\ dn * ds <= s /\ (l # "atk_c" => pid = 0)
